@@ -426,6 +426,19 @@ func randMutation(r *rand.Rand, root protoreflect.MessageDescriptor, o int) map[
 	return s
 }
 
+// canKeepUnknown reports whether messages of the type can store unknown fields at all.  Old proto3 generated code
+// (before 2018) has no XXX_unrecognized field: SetUnknown and unknown fields on the wire are silently dropped, by
+// construction of that code and not by a decision of the runtime.  Histories on such types avoid unknown fields.
+func canKeepUnknown(name string, dyn bool) bool {
+	m := NewObj(name, dyn)
+	m.SetUnknown(protoreflect.RawFields{0xa0, 0x9c, 0x01, 0x01})
+	return len(m.GetUnknown()) > 0
+}
+
+func stripLitUnknown(lit map[string]any) map[string]any {
+	return stripUnknown(lit).(map[string]any)
+}
+
 // mixFromEnv parses VERIF_MIX="op=weight,..." (default: a general-purpose mix).
 func mixFromEnv() ([]string, []int) {
 	spec := os.Getenv("VERIF_MIX")
@@ -469,6 +482,7 @@ func histGen(r *rand.Rand, n int, emit func(core.Case)) {
 	for i := 0; i < n; i++ {
 		name, dyn := splitType(types[r.IntN(len(types))])
 		md := NewObj(name, dyn).Descriptor()
+		keepsUnknown := canKeepUnknown(name, dyn)
 		var steps []any
 		for k := 3 + r.IntN(6); k > 0; k-- {
 			o := r.IntN(3)
@@ -481,7 +495,7 @@ func histGen(r *rand.Rand, n int, emit func(core.Case)) {
 				steps = append(steps, map[string]any{"op": "size", "o": o, "det": r.IntN(2) == 0})
 			case "unmarshal":
 				steps = append(steps, map[string]any{"op": "unmarshal", "o": o, "b": core.B(randBytesFor(r, name, dyn)),
-					"merge": r.IntN(3) == 0, "partial": r.IntN(3) != 0, "discard": r.IntN(6) == 0, "nolazy": r.IntN(3) == 0, "limit": 0})
+					"merge": r.IntN(3) == 0, "partial": r.IntN(3) != 0, "discard": r.IntN(6) == 0 || !keepsUnknown, "nolazy": r.IntN(3) == 0, "limit": 0})
 			case "rt":
 				steps = append(steps, map[string]any{"op": "rt", "o": o, "o2": o2, "det": r.IntN(2) == 0, "nolazy": r.IntN(3) == 0})
 			case "merge":
@@ -501,7 +515,16 @@ func histGen(r *rand.Rand, n int, emit func(core.Case)) {
 			case "scribble":
 				steps = append(steps, map[string]any{"op": "scribble", "o": o})
 			default:
-				steps = append(steps, randMutation(r, md, o))
+				mu := randMutation(r, md, o)
+				if !keepsUnknown {
+					if mu["op"] == "setu" {
+						continue
+					}
+					if v, ok := mu["v"].(map[string]any); ok {
+						mu["v"] = stripUnknown(v)
+					}
+				}
+				steps = append(steps, mu)
 			}
 		}
 		emit(core.Case{"type": name, "dyn": dyn, "steps": steps, "lastonly": r.IntN(2) == 0})
